@@ -302,7 +302,7 @@ fn forged_check() -> CheckDef {
         "forged-establish",
         "generated attempts = (merchant, agreed balances from the lattice/random, context, lie in {none, one state slot, one close-state slot (cid, tag, lock, cb, mb), same slot in both, balances swapped, lock / fresh nonce / 0 in the tag slot, balance in the cid slot, compensating lies: a slot raised in the state and lowered in the close state}, strategy in {plain prover on the lying messages, revealed commitment scalars chosen after the challenge (all / one), one link dropped, scalar commitment or commitment of either sub-proof chosen after the challenge with responses repaired (with and without re-chosen revealed scalars), responses computed as if the agreed values had been committed, 1-2 atoms mutated}); the verifier's challenge is read through the challenge-recorder hook on a draft; oracle: accepted => the forger's known openings satisfy the agreed statement (exact); non-trivial = an attempt with a lie that decodes and reaches verify; distinct by (lie, strategy, balance classes)",
         &["strategy/revealed-scalars-chosen-after-challenge", "strategy/scalar-commitment-of-close-chosen-after-challenge+revealed", "strategy/responses-as-if-agreed-values-were-committed"],
-        (2200, 90_000),
+        (2200, 250_000),
         strategy,
         oracle,
     )
